@@ -234,6 +234,14 @@ fn recover(
         // inputs absent from the image were computed through the logging
         // executor; setting them now must work like a first set. The model's
         // expectation for set_input results is not judged here.
+        // Every input is written by the edit below. Inputs that are absent
+        // from the image count as changed as well (the engine has computed
+        // them through the input executor while all nodes were queried), which
+        // the model cannot tell from their old value: mark them by hand so
+        // that the KF1 exclusion sees the stale firewalls.
+        for i in &ins {
+            r.model.leaf_changed_epoch.insert(*i, 1001);
+        }
         let cont = [
             Step::Session { ops, by_drop: false },
             Step::Query(n - 1),
